@@ -141,7 +141,9 @@ def theorem_names(prop_id: str):
 
 # the source tie: which SrcTie modules concern which property, and the translated functions each one needs
 SRC_TIE = {
-    'C03': {'Block': ['Block1014.write', 'Block1014.finalise'], 'Reader': ['VbsReader.__next__']},
+    'C03': {'Block': ['Block1014.write', 'Block1014.finalise'], 'Reader': ['VbsReader.__next__'],
+            'Writer': ['VbsWriter.write', 'VbsWriter.close', 'VbsWriter.__exit__']},
+    'C11': {'Writer': ['VbsWriter.write', 'VbsWriter.close', 'VbsWriter.__exit__']},
     'C09': {'Reader': ['VbsReader.__next__']},
     'C10': {'Reader': ['VbsReader.__next__']},
     'C04': {'Block': ['Block1014.write', 'Block1014.finalise']},
@@ -414,12 +416,32 @@ class Run:
         if not cases:
             return
         chunks = [cases[i:i + chunk] for i in range(0, len(cases), chunk)]
+        deadline = getattr(self, 'search_deadline', None)
+        if deadline:
+            # a time-boxed search: visit the chunks in a (seeded) random order so that a cut leaves a spread sample
+            random.Random(self.seed).shuffle(chunks)
         args = [(mod_name, c, use_model) for c in chunks]
         if len(chunks) == 1 or NPROC == 1:
-            results = [_worker(a) for a in args]
-        else:
+            results = []
+            for a in args:
+                results.append(_worker(a))
+                if deadline and time.time() > deadline:
+                    break
+        elif not deadline:
             with mp.get_context('fork').Pool(min(NPROC, len(chunks))) as pool:
                 results = pool.map(_worker, args)
+        else:
+            results = []
+            pool = mp.get_context('fork').Pool(min(NPROC, len(chunks)))
+            try:
+                for r in pool.imap_unordered(_worker, args):
+                    results.append(r)
+                    if time.time() > deadline:
+                        self.notes.append(f'search time budget reached after {len(results)} of {len(args)} chunks')
+                        break
+            finally:
+                pool.terminate()
+                pool.join()
         for r in results:
             self.evaluations += r['n']
             self.hashes.update(r['hashes'])
